@@ -301,7 +301,18 @@ func init() {
 		return in.tb.F
 	})
 	// atomic.Value{v any}
-	reg("(*sync/atomic.Value).Load", func(in *Interp, fr *frame, args []Value) Value { return *fieldPtr(in, args[0], 0) })
+	reg("(*sync/atomic.Value).Load", func(in *Interp, fr *frame, args []Value) Value {
+		v := *fieldPtr(in, args[0], 0)
+		// scheduling point right after an atomic load (harness hook)
+		if h, ok := in.hostState["onatomic"]; ok && h != nil {
+			in.callValue(h, nil, fr)
+		}
+		return v
+	})
+	reg(RT+".OnAtomicLoad", func(in *Interp, fr *frame, args []Value) Value {
+		in.hostState["onatomic"] = args[0]
+		return nil
+	})
 	reg("(*sync/atomic.Value).Store", func(in *Interp, fr *frame, args []Value) Value {
 		if args[1].(Iface).T == nil {
 			panic(in.goPanic("sync/atomic: store of nil value into Value"))
